@@ -138,6 +138,50 @@ func runC19(c *Ctx) {
 		}
 	}
 
+	// per-layer state must be created per invocation
+	c.clause("C19.a2", "T8", "stateful compression objects (external-TOC compression buffering a TOC, zstd:chunked compressor with its metadata map) used by a ConvertFunc literal are created inside that invocation, never captured", 2)
+	stateful := map[string]bool{"estargz/externaltoc.GzipCompression": true, "estargz/externaltoc.GzipCompressor": true, "estargz/zstdchunked.Compressor": true, "nativeconverter/zstdchunked.zstdCompression": true}
+	nState := 0
+	for _, f := range convFns {
+		usesState := false
+		captured := ""
+		eachInstr(f, func(i ssa.Instruction) {
+			var ops []*ssa.Value
+			for _, op := range i.Operands(ops) {
+				if *op == nil {
+					continue
+				}
+				v := *op
+				t := v.Type()
+				if stateful[typeQName(t)] {
+					usesState = true
+				}
+				// captured: a FreeVar of (pointer to) such a type or a load from a captured cell of such a type / of an interface holding it
+				if fv, ok := v.(*ssa.FreeVar); ok {
+					et := deref(fv.Type())
+					if stateful[typeQName(fv.Type())] || stateful[typeQName(et)] {
+						captured = fv.Name()
+					}
+					// a captured ConvertFunc built outside (closing over shared state) that is invoked here
+					if sig, ok := deref(fv.Type()).Underlying().(*types.Signature); ok && isConvertFuncSig(sig) {
+						if ci, ok := i.(ssa.CallInstruction); ok {
+							_ = ci
+						}
+						captured = fv.Name() + " (a ConvertFunc built once outside the per-layer invocation)"
+					}
+				}
+			}
+		})
+		if !usesState && captured == "" {
+			continue
+		}
+		nState++
+		c.verdict(c.fnKey(f)+":per-layer-state", f.Pos(), captured == "", "compression state is created per invocation", "per-layer compression state "+captured+" is captured from the enclosing function and shared by all layers converted in parallel: one layer's TOC/metadata is attributed to another layer")
+	}
+	if nState < 2 {
+		c.bad("nativeconverter:per-layer-state-sites", token.NoPos, fmt.Sprintf("%d converter literals with per-layer compression state found (2 on the pinned tree)", nState))
+	}
+
 	// ---------- C19.b ----------
 	c.clause("C19.b", "T9", "descriptor provenance in every layer converter: Digest is Digest() of the committed writer that received the copy; Size and the Commit size are the copied count; TOC annotation and uncompressed label come from the blob/writer whose bytes were copied", 12)
 	const desc = "github.com/opencontainers/image-spec/specs-go/v1.Descriptor"
@@ -314,6 +358,31 @@ func runC19(c *Ctx) {
 			c.bad(fk+":uncompressed-label", f.Pos(), "uncompressed label not updated")
 		} else {
 			c.verdict(fk+":uncompressed-label", diffAt.Pos(), diffOK, "uncompressed label comes from the written blob's DiffID", "uncompressed label does not come from the written blob")
+			// nothing overwrites the label map between the update and Commit
+			lm := diffAt.(*ssa.MapUpdate).Map
+			over := false
+			eachInstr(f, func(i ssa.Instruction) {
+				if i == diffAt {
+					return
+				}
+				hit := false
+				switch x := i.(type) {
+				case *ssa.MapUpdate:
+					if sameValue(x.Map, lm) {
+						if k, ok := constString(x.Key); !ok || k == c.constVal("github.com/containerd/containerd/v2/core/images/converter/uncompress", "LabelUncompressed") || k == "containerd.io/uncompressed" {
+							hit = true
+						}
+					}
+				case *ssa.Call:
+					if calleeID(x) == "maps.Copy" && sameValue(x.Call.Args[0], lm) {
+						hit = true
+					}
+				}
+				if hit && instrBetween(diffAt, com, i) {
+					over = true
+				}
+			})
+			c.verdict(fk+":uncompressed-label-final", diffAt.Pos(), !over, "the label is not overwritten before Commit", "the uncompressed label written from the new blob can be overwritten (e.g. by the source blob's labels) before Commit")
 		}
 		if blob != nil {
 			// blob.Close() success before DiffID/TOCDigest are read and before Commit
